@@ -28,8 +28,14 @@ def extract():
     n_pi = 0
     in_fermi = False
     n_fermi = 0
+    n_spthe = 0
     for l in body:
         is_comment = l[:1] in ("c", "C", "*", "!")
+        if not is_comment and re.match(r"^\s+save spthe1,spmax\s*$", l):
+            # observability only: the first-lepton spectrum table of subroutine bb moves from SAVEd local storage to a named
+            # common block (same lifetime), so that the accessor can read it after an initialisation
+            l = "      common/vfspthe/spthe1,spmax"
+            n_spthe += 1
         if not is_comment:
             # normalisation 1: 8-digit literals of pi -> double precision (see DESIGN 1.3)
             if "3.1415927" in l:
@@ -55,6 +61,8 @@ def extract():
         out.append(l)
     if n_pi < 2:
         raise RuntimeError("reference: expected >=2 literals of pi to normalise, found %d" % n_pi)
+    if n_spthe != 1:
+        raise RuntimeError("reference: 'save spthe1,spmax' not found exactly once (%d)" % n_spthe)
     if n_fermi != 2:
         raise RuntimeError("reference: could not rename function fermi (%d edits)" % n_fermi)
     return "\n".join(out) + "\n"
